@@ -127,6 +127,11 @@ pub struct SearchRecord {
     pub pre_nodes: u64,
     /// the engine call (command / direct call) in which this timer was started
     pub call_id: u64,
+    /// absolute virtual time at which the FIRST clock-limited arming of this engine call ends
+    pub call_deadline_ns: Option<u64>,
+    /// this arming came while an earlier deadline of the same call was still ahead, and it ends
+    /// later than that deadline (or has no limit at all)
+    pub drops_deadline: bool,
 }
 
 #[derive(Debug, Clone, Default)]
@@ -338,6 +343,11 @@ impl Sim for World {
                 s.started = true;
                 s.start_ns = now_before;
                 s.reads = 0;
+                if s.call_deadline_ns.is_none() {
+                    if let Some(l) = s.limit {
+                        s.call_deadline_ns = Some(now_before.saturating_add(l.as_nanos().min(u64::MAX as u128) as u64));
+                    }
+                }
             } else {
                 s.reads += 1;
                 if s.reads > 0 {
@@ -572,7 +582,26 @@ impl Sim for World {
             }
             _ => None,
         };
+        // the timer armed again inside the engine call that already armed a deadline (before
+        // that deadline has passed): does the new arming end no later than the first one?
+        let drops_deadline = match st.searches.last() {
+            Some(prev) if !st.call_boundary && prev.call_id == call_id_now && prev.started && prev.deadline_passed_at.is_none() && prev.inherited_overshoot.is_none() => {
+                match (prev.call_deadline_ns, limit) {
+                    (Some(_), None) => true,
+                    (Some(d0), Some(l)) => st.now_ns.saturating_add(l.as_nanos().min(u64::MAX as u128) as u64) > d0.saturating_add(1_000_000),
+                    (None, _) => false,
+                }
+            }
+            _ => false,
+        };
+        let call_deadline_ns = match st.searches.last() {
+            Some(prev) if !st.call_boundary && prev.call_id == call_id_now && prev.call_deadline_ns.is_some() => prev.call_deadline_ns,
+            _ => None, // set at the first clock read of this search, when its start is known
+        };
         st.call_boundary = false;
+        if drops_deadline {
+            st.ev("timer_rearmed_with_a_later_or_no_deadline_within_one_call");
+        }
         if inherited.is_some() {
             st.ev("timer_rearmed_after_deadline_within_one_call");
         }
@@ -606,6 +635,8 @@ impl Sim for World {
             inherited_overshoot: inherited,
             pre_nodes,
             call_id: call_id_now,
+            call_deadline_ns,
+            drops_deadline,
         });
     }
 
